@@ -15,6 +15,8 @@ except Exception:
 # bodies of helper functions whose calls could not be expanded in the HIR (a `return` inside a loop): path -> fn hir.
 # Dependence analyses follow calls into them (rules/inline.py fills it when the facts are loaded).
 HELPER_HIR = {}
+# the facts last loaded (rules/core.Facts sets it): `fold` takes its table helpers from here when none are passed
+DEFAULT_FACTS = [None]
 
 CHILD_KEYS = ("e", "l", "r", "f", "recv", "cond", "then", "else", "init", "body", "expr", "base", "i", "els", "guard")
 LIST_KEYS = ("args", "elems", "stmts")
@@ -351,7 +353,7 @@ class Sym:
                     # a constant that does not exist on the reference tree (a literal that a refactor gave a name) is its value
                     if self.facts is not None and KNOWN_CONSTS is not None and to["path"] not in KNOWN_CONSTS:
                         r_ = resolve_consts(("const", to["path"]), self.facts)
-                        if r_[0] == "lit":
+                        if r_[0] in ("lit", "arr"):
                             return r_
                     return ("const", to["path"])
                 return ("def", to["path"])
@@ -603,8 +605,45 @@ def resolve_consts(t, F):
                 return ("lit", bool(b[0]))
             if ty in ("u8", "u16", "u32", "usize", "i8", "i16", "i32", "isize") or (ty in ("u64", "i64") and not t[1].startswith("chess::zobrist")):
                 return ("lit", int.from_bytes(b, "little", signed=ty.startswith("i")))
+            arr = _const_array(ty, b)
+            if arr is not None:
+                return arr
         return t
     return tuple(resolve_consts(x, F) if isinstance(x, tuple) else x for x in t)
+
+
+_W = {"i8": 1, "u8": 1, "i16": 2, "u16": 2, "i32": 4, "u32": 4, "i64": 8, "u64": 8, "usize": 8, "isize": 8, "char": 4, "bool": 1}
+
+
+def _const_array(ty, b, limit=64):
+    """("arr", elem...) for a small const array of scalars or of equal-width scalar tuples, from its evaluated bytes"""
+    import re as _re
+    m = _re.fullmatch(r"\[(.+); (\d+)\]", ty.strip())
+    if not m:
+        return None
+    et, n = m.group(1).strip(), int(m.group(2))
+    if n == 0 or n > limit:
+        return None
+    comps = [et] if et in _W else ([x.strip() for x in et[1:-1].split(",")] if et.startswith("(") and et.endswith(")") else None)
+    if not comps or any(x not in _W for x in comps) or len({_W[x] for x in comps}) != 1:
+        return None
+    size = sum(_W[x] for x in comps)
+    if len(b) != size * n:
+        return None
+    out, off = [], 0
+    for _ in range(n):
+        lits = []
+        for x in comps:
+            raw = b[off:off + _W[x]]
+            off += _W[x]
+            if x == "char":
+                lits.append(("lit", chr(int.from_bytes(raw, "little"))))
+            elif x == "bool":
+                lits.append(("lit", bool(raw[0])))
+            else:
+                lits.append(("lit", int.from_bytes(raw, "little", signed=x.startswith("i"))))
+        out.append(lits[0] if not et.startswith("(") else ("tup",) + tuple(lits))
+    return ("arr",) + tuple(out)
 
 
 def value_leaves(e, wrap=()):
@@ -1137,13 +1176,15 @@ def table_helpers(F):
             if not x:
                 continue
             h = x[0]
+            if h == "field" and len(x) == 3 and x[1] == ("var", prm["name"]):
+                continue        # a field of the parameter itself (self.owner): still a pure table over the parameter
             if h in ("call", "field", "index", "closure", "str", "ctor", "struct", "deep", "unsupported", "ret", "block"):
                 ok = False
                 break
             if h == "var" and x[1] != prm["name"]:
                 ok = False
                 break
-        if ok and nf and nf[0] in ("match", "if", "lit", "variant"):
+        if ok and nf and nf[0] in ("match", "if", "lit", "variant", "cast", "bin"):
             out[path] = (prm["name"], nf)
     F._table_helpers = out
     return out
@@ -1157,6 +1198,11 @@ def fold(t, assume, discr=None, helpers=None, evalcalls=None):
     assume: dict normal-form -> normal-form (e.g. ("field",("var","self"),"owner") -> ("variant", "chess::Player::Black"))
     discr: dict variant path -> integer discriminant (for `as` casts of field-less enums)."""
     discr = discr or {}
+    if helpers is None and DEFAULT_FACTS[0] is not None:
+        try:
+            helpers = table_helpers(DEFAULT_FACTS[0])
+        except Exception:
+            helpers = None
 
     def f(t):
         if not isinstance(t, tuple) or not t:
@@ -1309,7 +1355,9 @@ def fold(t, assume, discr=None, helpers=None, evalcalls=None):
                 return f(subst(t[1][1][2], {("var", nm): x for nm, x in zip(t[1][1][1], args)}))
             if helpers and isinstance(t[1], str) and t[1] in helpers and len(args) == 1:
                 pname, body = helpers[t[1]]
-                return f(subst(body, {("var", pname): args[0]}))
+                r_ = f(subst(body, {("var", pname): args[0]}))
+                if r_[0] in ("lit", "variant"):
+                    return r_       # the helper's table decides under the current assumptions; otherwise keep the call
             ck = _callee_key(t[1])
             if evalcalls and isinstance(t[1], str) and t[1] in evalcalls:
                 r_ = evalcalls[t[1]](args)
@@ -1456,7 +1504,11 @@ def fold(t, assume, discr=None, helpers=None, evalcalls=None):
         if h in ("ch", "s"):
             return (h, f(t[1]))
         if h == "index":
-            return ("index", f(t[1]), f(t[2]))
+            a_, i_ = f(t[1]), f(t[2])
+            iv = sym_int(i_)
+            if a_[0] == "arr" and iv is not None and 0 <= iv < len(a_) - 1:
+                return a_[1 + iv]
+            return ("index", a_, i_)
         if h == "closure":
             return ("closure", t[1], f(t[2]))
         return (h,) + tuple(f(x) if isinstance(x, tuple) else x for x in t[1:])
